@@ -101,19 +101,22 @@ class error_html(object):
         """
         cur_line = src.cur_line
         seg_id = seg_data.get_seg_id()
-        if seg_id == 'SE':
-            # the node of the set is handed over at its ST only; the errors in the elements of SE hang on it too
-            st_node = self.errh.cur_st_node
-            if st_node is not None and st_node not in err_node_list \
-                    and getattr(st_node, 'cur_line_se', None) == cur_line:
-                err_node_list = list(err_node_list) + [st_node]
+        trailers = {'SE': ('cur_st_node', 'cur_line_se'), 'GE': ('cur_gs_node', 'cur_line_ge'),
+                    'IEA': ('cur_isa_node', 'cur_line_iea')}
+        if seg_id in trailers:
+            # the node of a loop is handed over at its header, and again at its trailer only if something
+            # was inside it; the errors in the elements of the trailer hang on it too
+            loop_node = getattr(self.errh, trailers[seg_id][0], None)
+            if loop_node is not None and loop_node not in err_node_list \
+                    and getattr(loop_node, trailers[seg_id][1], None) == cur_line:
+                err_node_list = list(err_node_list) + [loop_node]
 
         #while errh
         ele_pos_map = {}
         for err_node in err_node_list:
             for ele in err_node.elements:
-                if seg_id == 'SE' and not any('(SE' in err[1] for err in ele.errors):
-                    continue  # an element of ST
+                if seg_id in trailers and not any('(' + seg_id in err[1] for err in ele.errors):
+                    continue  # an element of the header
                 ele_pos_map[ele.ele_pos] = ele.subele_pos
 
         t_seg = []  # list of formatted elements
@@ -159,8 +162,7 @@ class error_html(object):
             for ele in err_node.elements:
                 for (err_cde, err_str, err_val) in ele.get_error_list(seg_data.get_seg_id(), False):
                 #for (err_cde, err_str, err_val) in ele.errors:
-                    if not (seg_data.get_seg_id() == 'GE' and 'GS' in err_str) \
-                            and not (seg_id == 'SE' and '(SE' not in err_str):  # Ugly hack
+                    if not (seg_id in trailers and '(' + seg_id not in err_str):  # those of the header were shown there
                         self.fd.write('<span class="error">&nbsp;%s (Element Error Code: %s)</span><br />\n' %
                                       (escape_html_text(err_str), err_cde))
 
